@@ -130,7 +130,8 @@ def apply(seq, op):
                  lambda: seq.is_channel_consistent(), lambda: len(seq.to_midi_track().messages),
                  lambda: seq.get_sequence_duration_relation(), lambda: seq.split([a["n"] + 1, 7]),
                  lambda: seq.equals(seq), lambda: seq == seq, lambda: seq.get_sequence_duration(),
-                 lambda: seq.get_sequence_channel()]
+                 lambda: seq.get_sequence_channel(),
+                 lambda: [[b.sequence for b in bars] for bars in Sequence.sequences_split_bars([seq], 0, quantise_note_lengths=bool(a["n"] % 2))]]
         res = []
         for c in calls:
             # a getter that rejects the current content (IndexError on empty / orphan-only content, inconsistent
